@@ -14,7 +14,9 @@ From OIDC Require Import Lib C04_OP C04_Ledger C04_Hist C04_spec C04_proofs C04_
    out of an earlier callback for a request q that is still stored and completed by an
    earlier login; the caller proves q's client; redirect_uri equals q's; a challenge
    demands a matching verifier; a public client needs a challenge; the tokens carry q's
-   subject, client, scopes and nonce. *)
+   subject, client, scopes and nonce.  q's redirect_uri / scopes / nonce / challenge are those
+   of the authorization request that created it: the query parameters, each superseded by the
+   member of the same name of a signed Request Object (eff_uri ... eff_chal, C04_OP.v). *)
 Theorem C04_exchange_sound : forall (H : string -> string) (cf : cfg) ops h s,
   exec H cf ops = (h, s) ->
   forall h1 e h2 pl f cr code uri ver t,
@@ -24,8 +26,10 @@ Theorem C04_exchange_sound : forall (H : string -> string) (cf : cfg) ops h s,
     /\ (exists ecb, In ecb h1 /\ e_op ecb = Callback (q_id q) /\ e_out ecb = OCode c)
     /\ find_req (e_pre e) (q_id q) = Some q /\ q_done q = true
     /\ (exists elog, In elog h1 /\ e_op elog = Login (q_id q) (q_sub q) (q_auth q) /\ e_out elog = OLogin true)
-    /\ (exists eau, In eau h1
-          /\ e_op eau = Authorize (q_client q) (q_uri q) (q_scopes q) (q_nonce q) (q_chal q) (q_extra q)
+    /\ (exists eau uri0 scopes0 nonce0 chal0, In eau h1
+          /\ e_op eau = Authorize (q_client q) uri0 scopes0 nonce0 chal0 (q_extra q)
+          /\ q_uri q = eff_uri uri0 (q_extra q) /\ q_scopes q = eff_scopes scopes0 (q_extra q)
+          /\ q_nonce q = eff_nonce nonce0 (q_extra q) /\ q_chal q = eff_chal chal0 (q_extra q)
           /\ e_out eau = OAuthz (Some (q_id q)))
     /\ cred_proves cf cr (q_client q) = true
     /\ uri = q_uri q
@@ -37,6 +41,44 @@ Theorem C04_exchange_sound : forall (H : string -> string) (cf : cfg) ops h s,
     /\ t_scope t = q_scopes q /\ t_nonce t = q_nonce q.
 Proof. exact exchange_sound. Qed.
 Print Assumptions C04_exchange_sound.
+
+(* PKCE parameters that travel INSIDE a signed Request Object (x_ro, accepted only when
+   RequestObjectSupported is on and the object verifies) are in force: if the object of the
+   authorization request behind the redeemed code carried a code_challenge, the exchange
+   presented a non-empty verifier that matches it - under the object's code_challenge_method,
+   else the query's, else (no method anywhere) plain. Every client kind, both routers. *)
+Theorem C04_request_object_pkce : forall (H : string -> string) (cf : cfg) ops h s,
+  exec H cf ops = (h, s) ->
+  forall h1 e h2 pl f cr code uri ver t,
+    h = h1 ++ e :: h2 -> e_op e = TokenCode pl f cr code uri ver -> e_out e = OTokens t ->
+  exists c n eau cl uri0 scopes0 nonce0 chal0 x,
+    code = Some c
+    /\ (exists ecb, In ecb h1 /\ e_op ecb = Callback n /\ e_out ecb = OCode c)
+    /\ In eau h1 /\ e_op eau = Authorize cl uri0 scopes0 nonce0 chal0 x /\ e_out eau = OAuthz (Some n)
+    /\ forall ro, x_ro x = Some ro -> ro_cc ro <> "" ->
+          ver <> ""
+          /\ (if match ro_cm ro with
+                 | Some m => m
+                 | None => match chal0 with Some ch => fst ch | None => false end
+                 end then H ver else ver) = ro_cc ro.
+Proof. exact request_object_pkce. Qed.
+Print Assumptions C04_request_object_pkce.
+
+(* A request is judged on what it carries itself.  Whatever the history before it - e.g. an
+   exchange by the same client with credentials, verifier and redirect_uri immediately before -
+   an exchange that does not itself prove the client of the code's request, or presents another
+   (or no) redirect_uri, or has no matching verifier for the request's challenge, is refused and
+   changes nothing (the machine has no per-connection or pooled request state). *)
+Theorem C04_incomplete_exchange_refused : forall (H : string -> string) (cf : cfg) ops h s,
+  exec H cf ops = (h, s) ->
+  forall h1 e h2 pl f cr c uri ver q,
+    h = h1 ++ e :: h2 -> e_op e = TokenCode pl f cr (Some c) uri ver ->
+    code_req (e_pre e) c = Some q ->
+    (cred_proves cf cr (q_client q) = false \/ uri <> q_uri q
+     \/ (exists ch, q_chal q = Some ch /\ (ver = "" \/ (if fst ch then H ver else ver) <> snd ch))) ->
+    is_tokens (e_out e) = false /\ e_post e = e_pre e.
+Proof. exact incomplete_exchange_refused. Qed.
+Print Assumptions C04_incomplete_exchange_refused.
 
 (* No code appears in two successful exchanges of one history - wherever the parameters
    travel (pl) and whichever storage call fails during either exchange (f). *)
